@@ -247,14 +247,16 @@ theorem no_stale_registration_regression :
 
 /-! `sleep_exact` (full statement above) is now proved up to one gluing step.  Proved for every run:
 the sleep's action is created due at exactly `t + clamp d` with the sleeper alone registered on it (`sleep_date_exact`);
-no registration is ever stale (`no_stale_registration`): an actor blocked in `sleep_for` is registered on exactly the
-activities of its `waiting_synchros_`, i.e. that one, and owns no timer, so nothing but the completion of that
-activity (or a kill) reaches `simcall_answer` for it; the action completes at a clock r with
-`t + clamp d - prec < r ≤ t + clamp d` (`action_exact_window`), r being the date of a pending event
-(`clock_lands_on_event`), hence r = t + clamp d when no other event lies in the window; actions and timers are never
-in the past (`heap_never_past`).  NOT proved as one theorem: that the `waiting_synchros_` of an actor blocked in
-`sleep_for` is, in every later state, still exactly its sleep activity and that nobody else cancels that activity
-(the per-op footprint invariant); the monitor (`sleep not exact`) and the replay check it on every program. -/
+no registration is ever stale (`no_stale_registration`); hence nothing but the completion of the activities of its
+`waiting_synchros_` wakes a blocked actor (`completion_wakes_only_waiters`, `timeout_of_other_actor_is_inert`, and no
+timer of its own is pending without `timeout_cb_`), and that completion does wake it, at that very clock
+(`completion_wakes_waiter`); an action completes at a clock r with `date - prec < r ≤ date`
+(`action_exact_window`), r being the date of a pending event (`clock_lands_on_event`), hence r = t + clamp d when no
+other event lies in the window; actions and timers are never in the past (`heap_never_past`); when the run stops
+nothing is left pending (`no_pending_at_end`).  NOT proved as one theorem: that the `waiting_synchros_` of an actor
+blocked in `sleep_for` is, in every later state, still exactly its sleep activity with its heap entry unchanged, and
+that nobody else cancels that activity (the per-operation footprint invariant); the monitor (`sleep not exact`) and
+the replay check it on every program. -/
 
 /-! non-vacuity (concrete runs are evaluated by the compiled driver on the corpus: `decide` does not reduce `Rat`) -/
 
